@@ -344,11 +344,13 @@ func GenCase(t *rapid.T, c *verifkit.Case, ex Exec, row Row) {
 		run.NoPol = rapid.IntRange(0, 9).Draw(t, "nopolicy") < 3
 	}
 	nt := false
+	cc := &Ctx{Ex: ex, H: h, Hist: g.hist}
+	defer cc.Close()
 	for _, kp := range KindPairs(ti) {
 		r := run
 		r.Kind, r.Kind2 = kp[0], kp[1]
 		c.Op(&r)
-		if ExecRun(t, c, ex, h, g.hist, &r) {
+		if ExecRun(t, c, cc, &r) {
 			nt = true
 		}
 	}
@@ -506,23 +508,59 @@ func tableChanged(a, b vs.Dump, table string) bool {
 	return len(vs.DiffDumps(a, b, func(t string) bool { return t == table })) > 0
 }
 
-// ExecRun executes one cell on a fresh store and judges it. It returns whether the cell is non-trivial by the
-// property's rule.
-func ExecRun(f verifkit.F, c *verifkit.Case, ex Exec, h *Header, hist []*HistOp, r *Run) (nontrivial bool) {
+// Ctx is the execution context of one case: header, history and the store the history was replayed onto. A store
+// is reused for the next cell only while the dump comparison showed that the previous cell left it completely
+// unchanged (a rejected conditional write); every cell that changed anything is followed by a fresh store with the
+// history replayed. So every cell sees exactly the state the history produces.
+type Ctx struct {
+	Ex   Exec
+	H    *Header
+	Hist []*HistOp
+
+	store  *state.Store
+	run    func(b *Built) Outcome
+	done   func()
+	tr     *tracker
+	before vs.Dump
+}
+
+func (cc *Ctx) Close() {
+	if cc.done != nil {
+		cc.done()
+	}
+	cc.store, cc.run, cc.done, cc.before = nil, nil, nil, nil
+}
+
+func (cc *Ctx) prepare(ek string) {
+	if cc.store != nil {
+		return
+	}
+	cc.store, cc.run, cc.done = cc.Ex.New()
+	cc.tr = &tracker{}
+	cc.tr.step(Probe(cc.store, ek, cc.H.Ent), 0)
+	for _, op := range cc.Hist {
+		_ = ApplyHist(cc.store, op)
+		cc.tr.step(Probe(cc.store, ek, cc.H.Ent), op.idx())
+	}
+	cc.before = vs.TakeDump(cc.store)
+}
+
+// ExecRun executes one cell and judges it. It returns whether the cell is non-trivial by the property's rule.
+func ExecRun(f verifkit.F, c *verifkit.Case, cc *Ctx, r *Run) (nontrivial bool) {
+	ex, h := cc.Ex, cc.H
 	ti := TypeByName(h.Type)
 	if ti == nil {
 		f.Fatalf("verifc10: unknown type %q", h.Type)
 	}
-	store, run, done := ex.New()
-	defer done()
+	cc.prepare(ti.EK)
+	store, run, tr, before := cc.store, cc.run, cc.tr, cc.before
+	unchanged := false
+	defer func() {
+		if !unchanged {
+			cc.Close() // the next cell starts from a fresh store
+		}
+	}()
 	defer c.GuardPanic(f, "C10/panic")
-	tr := &tracker{}
-	tr.step(Probe(store, ti.EK, h.Ent), 0)
-	for _, op := range hist {
-		_ = ApplyHist(store, op)
-		tr.step(Probe(store, ti.EK, h.Ent), op.idx())
-	}
-	before := vs.TakeDump(store)
 	obs := Observe(before, ti.EK, h.Ent)
 	for i := range obs {
 		// harness self-check: the dump reader and the store's getters agree on the condition slot
@@ -561,6 +599,7 @@ func ExecRun(f verifkit.F, c *verifkit.Case, ex Exec, h *Header, hist []*HistOp,
 	after := vs.TakeDump(store)
 	diffs := vs.DiffDumps(before, after, nil)
 	applied := len(diffs) > 0
+	unchanged = !applied
 	post := Observe(after, ti.EK, h.Ent)
 
 	desc := fmt.Sprintf("%s via %s: pre=%s entity=%+v slot=%v", h.Type, ex.Name(), pre, h.Ent, obs[0])
@@ -722,7 +761,8 @@ func ReplayCase(f verifkit.F, c *verifkit.Case, ex Exec, raw []json.RawMessage) 
 		return false
 	}
 	c.Op(&h)
-	var hist []*HistOp
+	cc := &Ctx{Ex: ex, H: &h}
+	defer cc.Close()
 	ran := 0
 	for _, m := range raw[1:] {
 		var probe struct {
@@ -735,7 +775,7 @@ func ReplayCase(f verifkit.F, c *verifkit.Case, ex Exec, raw []json.RawMessage) 
 				f.Fatalf("verifc10: bad run op: %v", err)
 			}
 			c.Op(&r)
-			if ExecRun(f, c, ex, &h, hist, &r) {
+			if ExecRun(f, c, cc, &r) {
 				c.NonTrivial()
 			}
 			ran++
@@ -749,7 +789,10 @@ func ReplayCase(f verifkit.F, c *verifkit.Case, ex Exec, raw []json.RawMessage) 
 			op.VS.Load()
 		}
 		c.Op(&op)
-		hist = append(hist, &op)
+		if ran > 0 {
+			f.Fatalf("verifc10: history op after a run op in the replay file")
+		}
+		cc.Hist = append(cc.Hist, &op)
 	}
 	return ran > 0
 }
